@@ -350,8 +350,16 @@ inductive SRow
   | label (r : SRow) (key : Key) (tipe : Option String)
   deriving Repr
 
+/-- remove duplicates (sets are lists compared as sets; the order is irrelevant) -/
+def dedup {α} [DecidableEq α] : List α → List α
+  | [] => []
+  | x :: xs => if x ∈ xs then dedup xs else x :: dedup xs
+
+/-- the members of `b` that are not in `a`, once each: `set(b) - set(a)` -/
+def kdiff (b a : List Key) : List Key := dedup (b.filter (fun k => !a.contains k))
+
 /-- set union of key lists (left operand duplicate-free) -/
-def kunion (a b : List Key) : List Key := a ++ (b.filter (fun k => !a.contains k)).eraseDups
+def kunion (a b : List Key) : List Key := a ++ kdiff b a
 
 def encOf (enc : List (Key × Enc)) (k : Key) : Enc := (dget enc k).getD .ident
 
@@ -360,6 +368,35 @@ def mapMRes {α β} (f : α → Res β) : List α → Res (List β)
   | a :: t => match f a with
     | .error e => .error e
     | .ok b => match mapMRes f t with | .ok bs => .ok (b :: bs) | .error e => .error e
+
+/-- apply a per-key function to the value of one dict entry -/
+def applyEntry (f : Key → Val → Res Val) (p : Key × Val) : Res (Key × Val) :=
+  match f p.1 p.2 with
+  | .ok v => .ok (p.1, v)
+  | .error e => .error e
+
+/-- the explicit entry of a "not sparse" column whose key is absent: the encoded `"0"` -/
+def zeroEntry (f : Key → Val → Res Val) (k : Key) : Res (Key × Val) :=
+  match f k (.str "0") with
+  | .ok v => .ok (k, v)
+  | .error e => .error e
+
+/-- `inv[k]` -/
+def renameKey (inv : KMap) (k : Key) : Res Key :=
+  match dget inv k with
+  | some n => .ok n
+  | none => .error .keyError
+
+def renameEntry (inv : KMap) (p : Key × Val) : Res (Key × Val) :=
+  match dget inv p.1 with
+  | some n => .ok (n, p.2)
+  | none => .error .keyError
+
+/-- `self._enc[k]("0")` (EncodeSparse.items: a KeyError if `k` has no encoder) -/
+def encZero (enc : List (Key × Enc)) (k : Key) (v : Val) : Res Val :=
+  match dget enc k with
+  | some e => e.apply v
+  | none => .error .keyError
 
 namespace SRow
 
@@ -377,11 +414,11 @@ def keys : SRow → Res (List Key)
   | lazy c _ nsp _ inv _ =>
     let ks := kunion (c.get.map (·.1)) nsp
     if inv.isEmpty then .ok ks
-    else mapMRes (fun k => match dget inv k with | some n => .ok n | none => .error .keyError) ks
+    else mapMRes (renameKey inv) ks
   | head r _ inv =>
     match keys r with
     | .error e => .error e
-    | .ok ks => mapMRes (fun k => match dget inv k with | some n => .ok n | none => .error .keyError) ks
+    | .ok ks => mapMRes (renameKey inv) ks
   | encode r _ nsp => match keys r with | .ok ks => .ok (kunion ks nsp) | .error e => .error e
   | drop r ds => match keys r with | .ok ks => .ok (ks.filter (fun k => !ds.contains k)) | .error e => .error e
   | label r key _ => match keys r with | .ok ks => .ok (kunion ks [key]) | .error e => .error e
@@ -424,25 +461,22 @@ def items : SRow → Res Dict
     if enc.isEmpty then
       if inv.isEmpty then .ok raw else .ok (raw.map (fun p => ((dget inv p.1).getD p.1, p.2)))
     else
-      let extra := ((nsp.filter (fun k => !(raw.map (·.1)).contains k)).eraseDups).map (fun k => (k, Val.str "0"))
-      mapMRes (fun p => match lazyApply (encOf enc p.1) p.2 with
-                        | .ok v => .ok ((if inv.isEmpty then p.1 else (dget inv p.1).getD p.1), v)
-                        | .error e => .error e) (raw ++ extra)
+      let extra := (kdiff nsp (raw.map (·.1))).map (fun k => (k, Val.str "0"))
+      match mapMRes (applyEntry (fun k v => lazyApply (encOf enc k) v)) (raw ++ extra) with
+      | .error e => .error e
+      | .ok its => .ok (its.map (fun p => ((if inv.isEmpty then p.1 else (dget inv p.1).getD p.1), p.2)))
   | head r _ inv =>
     match items r with
     | .error e => .error e
-    | .ok its => mapMRes (fun p => match dget inv p.1 with | some n => .ok (n, p.2) | none => .error .keyError) its
+    | .ok its => mapMRes (renameEntry inv) its
   | encode r enc nsp =>
     match items r with
     | .error e => .error e
     | .ok its =>
-      match mapMRes (fun p => match (encOf enc p.1).apply p.2 with | .ok v => .ok (p.1, v) | .error e => .error e) its with
+      match mapMRes (applyEntry (fun k v => (encOf enc k).apply v)) its with
       | .error e => .error e
       | .ok t1 =>
-        match mapMRes (fun k => match dget enc k with
-                                | some e => (match e.apply (.str "0") with | .ok v => .ok (k, v) | .error er => .error er)
-                                | none => .error .keyError)
-                ((nsp.filter (fun k => !(its.map (·.1)).contains k)).eraseDups) with
+        match mapMRes (zeroEntry (encZero enc)) (kdiff nsp (its.map (·.1))) with
         | .error e => .error e
         | .ok t2 => .ok (t1 ++ t2)
   | drop r ds => match items r with | .ok its => .ok (its.filter (fun p => !ds.contains p.1)) | .error e => .error e
@@ -878,58 +912,62 @@ def EagerD.labelVal (e : EagerD) : Option Val :=
 
 /-- encode the dict entries; a column whose encoded sparse zero is not 0 becomes explicit -/
 def encodeDictE (enc : List (Key × Enc)) (apply : Enc → Val → Res Val) (d : Dict) : Res Dict :=
-  match mapMRes (fun p => match apply (encOf enc p.1) p.2 with | .ok v => .ok (p.1, v) | .error e => .error e) d with
+  match mapMRes (applyEntry (fun k v => apply (encOf enc k) v)) d with
   | .error e => .error e
   | .ok t1 =>
-    match mapMRes (fun k => match apply (encOf enc k) (.str "0") with | .ok v => .ok (k, v) | .error e => .error e)
-            (((nspOf enc).filter (fun k => !(d.map (·.1)).contains k)).eraseDups) with
+    match mapMRes (zeroEntry (fun k v => apply (encOf enc k) v)) (kdiff (nspOf enc) (d.map (·.1))) with
     | .error e => .error e
     | .ok t2 => .ok (t1 ++ t2)
 
 /-- rename the keys of a dict: every key needs a name -/
-def renameE (inv : KMap) (d : Dict) : Res Dict :=
-  mapMRes (fun p => match dget inv p.1 with | some n => .ok (n, p.2) | none => .error .keyError) d
+def renameE (inv : KMap) (d : Dict) : Res Dict := mapMRes (renameEntry inv) d
+
+/-- a Python dict / mapping has distinct keys -/
+def distinct {α} [DecidableEq α] (l : List α) : Bool := decide l.Nodup
 
 def eagerBaseS : SBase → Res EagerS
-  | .plain d => .ok ⟨d, none, none⟩
+  | .plain d => if distinct (d.map (·.1)) then .ok ⟨d, none, none⟩ else .error .valueError
   | .lazy d _ enc hdr miss =>
-    let inv : KMap := match hdr with | none => [] | some ns => ns.zipIdx.map (fun p => (Key.pos p.2, Key.name p.1))
-    match (if enc.isEmpty then Except.ok d
-           else mapMRes (fun p => match lazyApply (encOf enc p.1) p.2 with | .ok v => .ok (p.1, v) | .error e => .error e) d) with
-    | .error e => .error e
-    | .ok d' => .ok ⟨d'.map (fun p => ((dget inv p.1).getD p.1, p.2)), none, some miss⟩
+    if distinct (d.map (·.1)) && distinct (enc.map (·.1)) then
+      let inv : KMap := match hdr with | none => [] | some ns => ns.zipIdx.map (fun p => (Key.pos p.2, Key.name p.1))
+      match (if enc.isEmpty then Except.ok d
+             else mapMRes (applyEntry (fun k v => lazyApply (encOf enc k) v)) d) with
+      | .error e => .error e
+      | .ok d' => .ok ⟨d'.map (fun p => ((dget inv p.1).getD p.1, p.2)), none, some miss⟩
+    else .error .valueError
   | .arff cols raw miss =>
-    let encs := cols.zipIdx.map (fun p => (Key.pos p.2, Col.enc true p.1))
-    let inv : KMap := cols.zipIdx.map (fun p => (Key.pos p.2, Key.name p.1.name))
-    match encodeDictE encs lazyApply raw with
-    | .error e => .error e
-    | .ok d' => match renameE inv d' with | .ok d'' => .ok ⟨d'', none, some miss⟩ | .error e => .error e
+    if distinct (raw.map (·.1)) && distinct (cols.map (·.name)) then
+      let encs := cols.zipIdx.map (fun p => (Key.pos p.2, Col.enc true p.1))
+      let inv : KMap := cols.zipIdx.map (fun p => (Key.pos p.2, Key.name p.1.name))
+      match encodeDictE encs lazyApply raw with
+      | .error e => .error e
+      | .ok d' => match renameE inv d' with | .ok d'' => .ok ⟨d'', none, some miss⟩ | .error e => .error e
+    else .error .valueError
+
+/-- HeadRows on sparse rows: every key gets its name (names and keys pairwise distinct) -/
+def eagerHeadS (inv : KMap) (e : EagerS) : Res (Option EagerS) :=
+  if distinct (inv.map (·.1)) && distinct (inv.map (·.2)) then
+    match renameE inv e.d with
+    | .error er => .error er
+    | .ok d' =>
+      match (match e.lab with | none => some none | some (k, t) => (dget inv k).map (fun n => some (n, t))) with
+      | none => .error .keyError
+      | some lab => .ok (some ⟨d', lab, e.miss⟩)
+  else .error .valueError
 
 def eagerStageS : Stage → EagerS → Res (Option EagerS)
-  | .headNames ns, e =>
-    let inv : KMap := ns.zipIdx.map (fun p => (Key.pos p.2, Key.name p.1))
-    match renameE inv e.d with
-    | .error er => .error er
-    | .ok d' =>
-      match (match e.lab with | none => some none | some (k, t) => (dget inv k).map (fun n => some (n, t))) with
-      | none => .error .keyError
-      | some lab => .ok (some ⟨d', lab, e.miss⟩)
-  | .headMap m, e =>
-    let inv : KMap := m.map (fun p => (p.2, Key.name p.1))
-    match renameE inv e.d with
-    | .error er => .error er
-    | .ok d' =>
-      match (match e.lab with | none => some none | some (k, t) => (dget inv k).map (fun n => some (n, t))) with
-      | none => .error .keyError
-      | some lab => .ok (some ⟨d', lab, e.miss⟩)
+  | .headNames ns, e => eagerHeadS (ns.zipIdx.map (fun p => (Key.pos p.2, Key.name p.1))) e
+  | .headMap m, e => eagerHeadS (m.map (fun p => (p.2, Key.name p.1))) e
   | .encodeSeq es, e =>
     match encodeDictE (es.zipIdx.map (fun p => (Key.pos p.2, p.1))) Enc.apply e.d with
     | .ok d' => .ok (some { e with d := d' })
     | .error er => .error er
   | .encodeMap m, e =>
-    match encodeDictE m Enc.apply e.d with
-    | .ok d' => .ok (some { e with d := d' })
-    | .error er => .error er
+    if distinct (m.map (·.1)) then
+      match encodeDictE m Enc.apply e.d with
+      | .ok d' => .ok (some { e with d := d' })
+      | .error er => .error er
+    else .error .valueError
   | .drop cols pred, e =>
     match evalPredE pred e.miss (dget e.d) with
     | .error er => .error er
